@@ -581,13 +581,13 @@ Fixpoint reparent_loop (nodes : list node) (off anchorIndex : index) (anchorRoot
       else (n :: rest', w, ch)
   end.
 
-(* returns the calls made to the sink *)
-Definition OnPrune (fx : fixes) (sink : sink_fn) (anchorRoot : root) (anchorSlot : slot) : M parray (list (ref * bool)) :=
+(* returns the calls made to the sink and whether the sink failed (the Go function then returns the sink's error) *)
+Definition OnPrune_core (fx : fixes) (sink : sink_fn) (anchorRoot : root) (anchorSlot : slot) : M parray (list (ref * bool) * bool) :=
   pa <- get ;;
   match idx_get (pa_idx pa) (anchorRoot, anchorSlot) with
-  | None => ret []
+  | None => ret ([], false)
   | Some anchorIndex =>
-      if anchorIndex =? pa_off pa then ret [] else
+      if anchorIndex =? pa_off pa then ret ([], false) else
       head <- FindHead fx anchorRoot anchorSlot ;;
       pa1 <- get ;;
       match idx_get (pa_idx pa1) head with
@@ -604,14 +604,18 @@ Definition OnPrune (fx : fixes) (sink : sink_fn) (anchorRoot : root) (anchorSlot
                      else mkPA (pa_sink_nil pa1) (pa_off pa1) (pa_je pa1) (pa_fe pa1) (pa_nodes pa1) (pa_idx pa1)
                                (bs_set (pa_bs pa1) anchorRoot anchorSlot) (pa_upd pa1) in
           let pa3 := drop_pruned fx (firstn (N.to_nat upto) pruned) pa2 in
-          if failed then put pa3 ;;; (fun s => (s, Err)) else
+          if failed then put pa3 ;;; ret (calls, true) else
           if f_prune_reparent fx then
             anchorNode <- lift_o (rawNode pa3 (sub64 anchorIndex (pa_off pa3))) ;;
             let '(nodes', w, ch) := reparent_loop (pa_nodes pa3) (pa_off pa3) anchorIndex anchorRoot anchorSlot in
             let nodes'' := updN nodes' (sub64 anchorIndex (pa_off pa3)) (set_w anchorNode (sadd64 (n_w anchorNode) w)) in
             put (mkPA (pa_sink_nil pa3) (pa_off pa3) (pa_je pa3) (pa_fe pa3) (if ch then nodes'' else pa_nodes pa3)
                       (pa_idx pa3) (pa_bs pa3) (if ch then false else pa_upd pa3)) ;;;
-            ret calls
-          else put pa3 ;;; ret calls
+            ret (calls, false)
+          else put pa3 ;;; ret (calls, false)
       end
   end.
+
+Definition OnPrune (fx : fixes) (sink : sink_fn) (anchorRoot : root) (anchorSlot : slot) : M parray (list (ref * bool)) :=
+  r <- OnPrune_core fx sink anchorRoot anchorSlot ;;
+  if snd r then fail Err else ret (fst r).
